@@ -80,6 +80,16 @@ impl Parser {
             let dcs_string = std::mem::take(&mut self.parse_string);
             #[cfg(icy_engine_verif)]
             let dcs_string = crate::verif_hooks::GatedString::new(dcs_string);
+            // inside a macro an image is a large part of what one invocation may expand to (a picture costs up to 2048 x 2048 pixels
+            // whatever the length of its sequence): without that a macro of a few thousand empty images decodes gigabytes
+            if self.macro_nesting > 0 {
+                let cost = super::MAX_MACRO_EXPANSION / 4;
+                if self.macro_budget < cost {
+                    self.macro_budget = 0;
+                    return Err(ParserError::UnsupportedDCSSequence("macro expansion limit reached".to_string()).into());
+                }
+                self.macro_budget -= cost;
+            }
             // nothing else collects the decode threads while characters keep coming: bound their number
             if buf.sixel_threads.len() >= MAX_PENDING_SIXEL_DECODES {
                 let _ = buf.collect_sixel_threads(MAX_PENDING_SIXEL_DECODES - 1);
